@@ -2,8 +2,8 @@
 # usage: run_seed_scratch.sh <seed-dir-name> <prop>...   like run_seed.sh, but on a scratch copy of /repo (never touches /repo)
 S=$1; shift
 tmp=$(mktemp -d /tmp/seedcopy.XXXX); trap 'rm -rf $tmp' EXIT
-rsync -a --exclude .git /repo/ $tmp/ && patch -p1 -s --no-backup-if-mismatch -d $tmp -i /verif/seeded/$S/patch.diff || { echo "seed=$S: patch does not apply"; exit 2; }
+(git -C /repo archive HEAD | tar -x -C $tmp) && patch -p1 -s --no-backup-if-mismatch -d $tmp -i /verif/seeded/$S/patch.diff || { echo "seed=$S: patch does not apply"; exit 2; }
 for p in "$@"; do
-  out=$(cd /verif && ./bin/govc check --no-evidence --repo $tmp $p 2>&1); rc=$?
+  out=$(cd /verif && ${GOVC_BIN:-./bin/govc} check --no-evidence --repo $tmp $p 2>&1); rc=$?
   echo "seed=$S prop=$p rc=$rc :: $(echo "$out" | grep -c '^VIOLATION') violations :: $(echo "$out" | grep '^VIOLATION' | sed 's/.*obligation=//' | head -4 | tr '\n' ' ')"
 done
